@@ -25,7 +25,7 @@ RULE = (
     "computed), W4 first build_trees, W5 rebuild for other edges of the same bin count (W5f: forced), W6 rebuild binned->unbinned, W7 "
     "CorrFunc.to_file over an older file, W8 CorrData.to_files over older files, W9 Configuration.to_file over an older "
     "file} x every crash point = entry of every mutating file-system call (mkdir, creating/truncating openat, write, "
-    "pwrite64, unlink, rmdir, rename, ftruncate) of the recorded workload, injected with strace "
+    "pwrite64, unlink, rmdir, rename, ftruncate) of the recorded workload (W1, W2, W5 additionally with SIGINT instead of SIGKILL: death by KeyboardInterrupt with stack unwinding), injected with strace "
     "inject=<call>:signal=KILL:when=<ordinal> under a -P path filter. Oracle (another process): each use of what survived "
     "either raises or behaves like the completed or the never-started step: catalog holds one of the complete record "
     "sets, measurements equal those on fresh caches, files read back as the old or the new object as a whole. "
@@ -77,6 +77,9 @@ def cases(tier, seed):
                 out.append(dict(workload=wl, k=k, name=op["name"], ordinal=op["ordinal"], proc=op["proc"],
                                 text=norm(op["text"], base), rel_paths=rel, snap=snap,
                                 total=sum(1 for o in ops if o["mutating"])))
+                if wl in ("W1", "W2", "W5"):
+                    # the same points with SIGINT: the interpreter dies by KeyboardInterrupt and unwinds its stack
+                    out.append(dict(out[-1], signal="INT"))
     return out
 
 
@@ -281,7 +284,7 @@ def run_case(case):
     if wl == "W1P":
         res = crashx.inject_parent(wl, base, op, d)
     else:
-        res = crashx.inject(wl, base, case["rel_paths"], op, d)
+        res = crashx.inject(wl, base, case["rel_paths"], op, d, sig=case.get("signal", "KILL"))
     def args_of(t):
         a = t.split(" = ")[0].split("(", 1)[-1].rstrip(") ")[:80]
         if wl.lower().endswith("p"):  # parallel creation: which patch the writer serves k-th is up to the real scheduler;
@@ -304,12 +307,12 @@ def run_case(case):
             problems.append(("creation-returns-other-than-new-catalog",
                              f"the writer process was killed, the creation call nevertheless returned a catalog with {n} "
                              f"records that is not the complete new record set"))
-    out = dict(nontrivial=True, key=[wl, case["k"]], counters=dict(kills=1),
+    out = dict(nontrivial=True, key=[wl, case["k"], case.get("signal", "KILL")], counters=dict(kills=1),
                sample=dict(workload=wl, k=case["k"], of=case["total"], killed_before=case["text"][:120]))
     if problems:
         w = window(case["text"])
         out.update(status="violation", violations=[dict(
-            signature=f"C08/{wl}/{what}/before:{w}",
+            signature=f"C08/{wl}/{what}/before:{w}" + ("/SIGINT" if case.get("signal") == "INT" else ""),
             what=f"{wl}: process killed before operation {case['k']}/{case['total']} ({case['text'][:100]}): {detail}",
             detail=dict(case=case)) for what, detail in problems])
     return out
